@@ -131,6 +131,10 @@ class RecordingHandler(object):
     def get_assets_historical_range_close_price(self, *a, **k):
         return self._inner.get_assets_historical_range_close_price(*a, **k)
 
+    def __getattr__(self, name):
+        # anything else the data handler offers is the inner handler's (the wrapper adds recording, it hides nothing)
+        return getattr(self._inner, name)
+
 
 def make_universe(u):
     if 'static' in u:
@@ -202,6 +206,21 @@ def _run_session(case, data_dir=None, data_source=None, keep=False, universe=Non
             if case.get('start_us'):
                 import pandas as pd
                 t_start = t_start + pd.Timedelta(microseconds=case['start_us'])
+            if case.get('sibling'):
+                # another session over the same dates was set up earlier in this process (a benchmark next to the strategy, say),
+                # with its own cadence: a session is a function of its own configuration
+                sk = dict(kw)
+                sb = case['sibling']
+                if sb.get('weekday'):
+                    sk['rebalance_weekday'] = sb['weekday']
+                else:
+                    sk.pop('rebalance_weekday', None)
+                try:
+                    BacktestTradingSession(t_start, ts(case['end']), StaticUniverse(list(uni.get_assets(ts(case['end'])))),
+                                           FixedSignalsAlphaModel({}), initial_cash=1000.0, rebalance=sb['rebalance'],
+                                           long_only=case['long_only'], fee_model=fee, data_handler=dh, **sk)
+                except Exception:
+                    pass
             bt = BacktestTradingSession(t_start, ts(case['end']), uni, alpha, signals=signals,
                                         initial_cash=case['cash'], rebalance=case['rebalance'], long_only=case['long_only'],
                                         fee_model=fee, burn_in_dt=None if case.get('burn') is None else ts_in(case['burn'], case.get('burn_tz')),
